@@ -100,3 +100,39 @@ package grpc
 //@   ensures[height-network-and-verdict-copied] response != nil ==> result != nil && fresh(result) && result.Height == response.Height && result.NetworkID == response.NetworkId && (result.Status == types.Settled) == (response.Status == v1nodetypes.CertificateStatus_CERTIFICATE_STATUS_SETTLED) && (result.Status == types.InError) == (response.Status == v1nodetypes.CertificateStatus_CERTIFICATE_STATUS_IN_ERROR) && (result.Status == types.Proven) == (response.Status == v1nodetypes.CertificateStatus_CERTIFICATE_STATUS_PROVEN) && (result.Status == types.Candidate) == (response.Status == v1nodetypes.CertificateStatus_CERTIFICATE_STATUS_CANDIDATE)
 //@   ensures[identity-and-roots-copied] response != nil ==> ((len(response.CertificateId.Value.Value) == 32 ==> result.CertificateID == hashOf(seq(response.CertificateId.Value.Value))) && (len(response.NewLocalExitRoot.Value) == 32 ==> result.NewLocalExitRoot == hashOf(seq(response.NewLocalExitRoot.Value))) && (len(response.Metadata.Value) == 32 ==> result.Metadata == hashOf(seq(response.Metadata.Value))))
 //@   ensures[missing-previous-root-is-nil] (response != nil && response.PrevLocalExitRoot == nil) ==> result.PreviousLocalExitRoot == nil
+
+// ---- asking the Agglayer for certificate headers (C13, C02): the reconciliation and the status poll decide on these
+// answers, so each getter must ask for what its name says - the latest *settled* / latest *pending* certificate of the
+// network given, the certificate with the id given - and hand back the conversion of the header it received.
+// (The service is the boundary, A8; an answer carries the fields the conversion reads.)
+//@ interface buf.build/gen/go/agglayer/agglayer/grpc/go/agglayer/node/v1/nodev1grpc.NodeStateServiceClient.GetLatestCertificateHeader (self, ctx, in, opts)
+//@   requires in != nil
+//@   modifies nothing
+//@   ensures result1 != nil ==> result0 == nil
+//@   ensures result1 == nil ==> result0 != nil && (result0.CertificateHeader != nil ==> (result0.CertificateHeader.CertificateId != nil && result0.CertificateHeader.CertificateId.Value != nil && result0.CertificateHeader.NewLocalExitRoot != nil && result0.CertificateHeader.Metadata != nil))
+//@ interface buf.build/gen/go/agglayer/agglayer/grpc/go/agglayer/node/v1/nodev1grpc.NodeStateServiceClient.GetCertificateHeader (self, ctx, in, opts)
+//@   requires in != nil
+//@   modifies nothing
+//@   ensures result1 != nil ==> result0 == nil
+//@   ensures result1 == nil ==> result0 != nil && (result0.CertificateHeader != nil ==> (result0.CertificateHeader.CertificateId != nil && result0.CertificateHeader.CertificateId.Value != nil && result0.CertificateHeader.NewLocalExitRoot != nil && result0.CertificateHeader.Metadata != nil))
+
+//@ func (a *AgglayerGRPCClient) GetLatestSettledCertificateHeader
+//@   props C13 C02
+//@   requires a != nil && a.networkStateService != nil && a.cfg != nil
+//@   ensures[error-means-nothing] result1 != nil ==> result0 == nil
+//@   assert call:GetLatestCertificateHeader arg1 != nil && arg1.NetworkId == networkID && arg1.Type == v1.LatestCertificateRequestType_LATEST_CERTIFICATE_REQUEST_TYPE_SETTLED
+//@   assert call:convertProtoCertificateHeader arg0 == response.CertificateHeader
+
+//@ func (a *AgglayerGRPCClient) GetLatestPendingCertificateHeader
+//@   props C13 C02
+//@   requires a != nil && a.networkStateService != nil && a.cfg != nil
+//@   ensures[error-means-nothing] result1 != nil ==> result0 == nil
+//@   assert call:GetLatestCertificateHeader arg1 != nil && arg1.NetworkId == networkID && arg1.Type == v1.LatestCertificateRequestType_LATEST_CERTIFICATE_REQUEST_TYPE_PENDING
+//@   assert call:convertProtoCertificateHeader arg0 == response.CertificateHeader
+
+//@ func (a *AgglayerGRPCClient) GetCertificateHeader
+//@   props C13 C02
+//@   requires a != nil && a.networkStateService != nil && a.cfg != nil
+//@   ensures[error-means-nothing] result1 != nil ==> result0 == nil
+//@   assert call:GetCertificateHeader arg1 != nil && arg1.CertificateId != nil && arg1.CertificateId.Value != nil && len(arg1.CertificateId.Value.Value) == 32 && hashOf(seq(arg1.CertificateId.Value.Value)) == certificateID
+//@   assert call:convertProtoCertificateHeader arg0 == response.CertificateHeader
